@@ -14,14 +14,15 @@ type VC = *vsched.Chan[int]
 // VFuncs are the wrappers of the fixed package after rewriting onto vsched, by wrapper name.
 type VFuncs struct {
 	Fmap     map[string]func(f func(int) int, in VC) VC
+	FmapCh   func(f func(int) VC, in VC) *vsched.Chan[VC]
 	Dup      map[string]func(c VC) (VC, VC)
 	JoinCC   map[string]func(in *vsched.Chan[VC]) VC
 	JoinSC   map[string]func(in []VC) VC
 	JoinV2   func(c0, c1 VC) VC
 	JoinV3   func(c0, c1, c2 VC) VC
 	Pipeline func(f func(int) VC, g func(int) VC) func(int) VC
-	Do2      func(f0, f1 func() (int, error)) (int, int, error)
-	Do3      func(f0, f1, f2 func() (int, error)) (int, int, int, error)
+	Do2      map[string]func(f0, f1 func() (int, error)) (int, int, error)
+	Do3      map[string]func(f0, f1, f2 func() (int, error)) (int, int, int, error)
 	Do4      func(f0, f1, f2, f3 func() (int, error)) (int, int, int, int, error)
 }
 
@@ -46,7 +47,7 @@ var roleOf = map[string]string{
 	"deriveDupR": "dup", "deriveDupB": "dup",
 	"deriveJoinCC": "join", "deriveJoinCCb": "join", "deriveJoinSC": "join", "deriveJoinSCb": "join",
 	"deriveJoinV2": "joinsel", "deriveJoinV3": "joinsel",
-	"deriveDo2": "do", "deriveDo3": "do", "deriveDo4": "do",
+	"deriveDo2": "do", "deriveDo3": "do", "deriveDo4": "do", "deriveDo2b": "do", "deriveDo3b": "do",
 }
 
 func canonName(s string) string {
@@ -104,7 +105,7 @@ func VBody(F *VFuncs, c Config, o *Outcome) (func(), error) {
 		ins := make([]VC, len(c.Items))
 		for i := range ins {
 			name := "in" + strconv.Itoa(i)
-			if c.Sys == "fmap" || c.Sys == "dup" {
+			if c.Sys == "fmap" || c.Sys == "dup" || c.Sys == "fmapch" {
 				name = "in"
 			}
 			ins[i] = vsched.Make[int](name, c.Caps[i]).SetTag(i)
@@ -122,6 +123,31 @@ func VBody(F *VFuncs, c Config, o *Outcome) (func(), error) {
 			ins := mkIns()
 			out := fn(F3, ins[0])
 			vsched.Spawn("cons0", consumer(out, o, 0))
+		}, nil
+	case "fmapch":
+		if F.FmapCh == nil {
+			break
+		}
+		return func() {
+			// the channels the function returns exist before the call (no producers: only their identity matters)
+			res := map[int]VC{}
+			for _, v := range c.Items[0] {
+				if v < NilFrom {
+					res[v] = vsched.Make[int]("r"+strconv.Itoa(v), 0).SetTag(v)
+				}
+			}
+			ins := mkIns()
+			out := F.FmapCh(func(v int) VC { return res[v] }, ins[0])
+			vsched.Spawn("cons0", func() {
+				for {
+					ch, ok := out.Recv()
+					if !ok {
+						o.SawClose[0] = true
+						return
+					}
+					o.Got[0] = append(o.Got[0], ch.VTag())
+				}
+			})
 		}, nil
 	case "dup":
 		fn := F.Dup[c.Variant]
@@ -225,10 +251,10 @@ func VBody(F *VFuncs, c Config, o *Outcome) (func(), error) {
 			switch c.N {
 			case 2:
 				o.DoVals = make([]int, 2)
-				o.DoVals[0], o.DoVals[1], err = F.Do2(fs[0], fs[1])
+				o.DoVals[0], o.DoVals[1], err = F.Do2[c.Variant](fs[0], fs[1])
 			case 3:
 				o.DoVals = make([]int, 3)
-				o.DoVals[0], o.DoVals[1], o.DoVals[2], err = F.Do3(fs[0], fs[1], fs[2])
+				o.DoVals[0], o.DoVals[1], o.DoVals[2], err = F.Do3[c.Variant](fs[0], fs[1], fs[2])
 			case 4:
 				o.DoVals = make([]int, 4)
 				o.DoVals[0], o.DoVals[1], o.DoVals[2], o.DoVals[3], err = F.Do4(fs[0], fs[1], fs[2], fs[3])
